@@ -22,7 +22,7 @@ RULE = ("(a) histories of 2-8 connections opening, calling and closing against r
         "non-trivial = more than one connection or thread involved")
 ASSUMPTIONS = ["a slow constructor (sleep) is a legitimate application behaviour that widens the race window without touching Pyro",
                "scheduling points = source lines of Daemon._getInstance (and its nested createInstance) only"]
-REQUIRED_REACH = ["shutdown_cases_ok", "connected_socket_ok", "failing_disconnect_hooks", "single_ok", "session_ok", "percall_ok", "creator_counts_ok", "failing_creator_ok", "racing_first_calls", "session_instances_dropped", "schedules_explored", "multi_daemon_ok", "oneway_first_requests", "registered_class_inherits_behavior", "registration_changes_ok", "slow_constructor_with_commtimeout"]
+REQUIRED_REACH = ["classes_registered_again_after_unregistering", "shutdown_cases_ok", "connected_socket_ok", "failing_disconnect_hooks", "single_ok", "session_ok", "percall_ok", "creator_counts_ok", "failing_creator_ok", "racing_first_calls", "session_instances_dropped", "schedules_explored", "multi_daemon_ok", "oneway_first_requests", "registered_class_inherits_behavior", "registration_changes_ok", "slow_constructor_with_commtimeout"]
 SHARD_TIMEOUT = {"quick": 240, "thorough": 2800}
 SHAPES = ["truthy", "falsy_len", "falsy_bool", "eq_always", "unhashable"]
 CREATORS = ["none", "ok", "raises", "raises_type", "wrongtype", "subclass"]     # subclass: the creator returns an instance of a subclass (allowed by the daemon's isinstance check)
@@ -133,7 +133,7 @@ def make_class(P, mode, shape, creator, slow=0.0, inherit=False):
     return Inst, book
 
 
-def socket_case(fx, mode, shape, creator, nconn, ncalls, rec, r, sername, race, inherit=None, slow_override=None, hook_raises=None):
+def socket_case(fx, mode, shape, creator, nconn, ncalls, rec, r, sername, race, inherit=None, slow_override=None, hook_raises=None, rereg=None):
     P = fx.P
     if hook_raises is None:
         hook_raises = mode == "session" and r.random() < 0.35
@@ -154,7 +154,15 @@ def socket_case(fx, mode, shape, creator, nconn, ncalls, rec, r, sername, race, 
     cls, book = make_class(P, mode, shape, creator, slow, inherit)
     objid = "cls%d" % r.randrange(10 ** 9)
     fx.daemon.register(cls, objid)
-    pay = {"mode": mode, "shape": shape, "creator": creator, "nconn": nconn, "ncalls": ncalls, "race": race, "servertype": fx.servertype, "serializer": sername, "inherit": inherit, "slow": slow_override, "commtimeout": P.config.COMMTIMEOUT, "hook_raises": hook_raises}
+    if rereg is None:
+        rereg = r.choice(["no", "no", "no", "no", "no", "no", "no", "by-class", "by-class", "by-id"])
+    if rereg != "no":
+        # the class was registered before, taken out (by class object or by id) and is registered again, as servers do that reload their
+        # services: it is still the class its decorators made it - same instance mode, same creator
+        rec.count("classes_registered_again_after_unregistering")
+        fx.daemon.unregister(cls if rereg == "by-class" else objid)
+        fx.daemon.register(cls, objid)
+    pay = {"mode": mode, "shape": shape, "creator": creator, "nconn": nconn, "ncalls": ncalls, "race": race, "servertype": fx.servertype, "serializer": sername, "inherit": inherit, "slow": slow_override, "commtimeout": P.config.COMMTIMEOUT, "hook_raises": hook_raises, "rereg": rereg}
     rec.case(("sock", mode, shape, creator, nconn, ncalls, race, fx.servertype, sername, inherit), nontrivial=nconn > 1, sample=pay if rec.evaluations % 40 == 3 else None)
     results = {}
     errors = {}
@@ -747,6 +755,6 @@ def replay(payload, rec):
     fx = fixture.Fixture(servertype=payload["servertype"], COMMTIMEOUT=payload.get("commtimeout", 0.0), THREADPOOL_SIZE=40, THREADPOOL_SIZE_MIN=2)
     try:
         socket_case(fx, payload["mode"], payload["shape"], payload["creator"], payload["nconn"], payload["ncalls"], rec, r, payload["serializer"], payload["race"], payload.get("inherit", False),
-                    slow_override=payload.get("slow"), hook_raises=payload.get("hook_raises", False))
+                    slow_override=payload.get("slow"), hook_raises=payload.get("hook_raises", False), rereg=payload.get("rereg", "no"))
     finally:
         fx.stop()
